@@ -54,7 +54,7 @@ def _odf_manifest_variant(plain: bytes, variant: str) -> bytes:
                 enc = ('<manifest:encryption-data manifest:checksum-type="urn:oasis:names:tc:opendocument:xmlns:manifest:1.0#sha256-1k" manifest:checksum="AAAA">'
                        '<manifest:algorithm manifest:algorithm-name="http://www.w3.org/2001/04/xmlenc#aes256-cbc" manifest:initialisation-vector="AAAA"/>'
                        '<manifest:key-derivation manifest:key-derivation-name="PBKDF2" manifest:key-size="32" manifest:iteration-count="100000" manifest:salt="AAAA"/></manifest:encryption-data>')
-                if variant == "encrypted":
+                if variant in ("encrypted", "encrypted-utf16-manifest", "encrypted-utf16be-manifest"):
                     text = text.replace('<manifest:file-entry manifest:full-path="content.xml" manifest:media-type="text/xml"/>',
                                         f'<manifest:file-entry manifest:full-path="content.xml" manifest:media-type="text/xml" manifest:size="123">{enc}</manifest:file-entry>')
                 elif variant == "encrypted-other-prefix":
@@ -66,6 +66,12 @@ def _odf_manifest_variant(plain: bytes, variant: str) -> bytes:
                 elif variant == "plain-comment-contains-trigger":
                     text = text.replace("</manifest:manifest>", "<!-- no manifest:algorithm here, this file is not encrypted --></manifest:manifest>")
                 data = text.encode()
+                if "utf16" in variant:
+                    # the same manifest in another legal XML encoding: UTF-16 with byte-order mark (and a declaration saying so)
+                    import re as _re
+                    text16 = _re.sub(r"^<\?xml[^>]*\?>", "", text)
+                    text16 = '<?xml version="1.0" encoding="UTF-16"?>' + text16
+                    data = (b"\xff\xfe" + text16.encode("utf-16-le")) if "utf16be" not in variant else (b"\xfe\xff" + text16.encode("utf-16-be"))
             if variant.startswith("encrypted") and zi.filename == "content.xml":
                 data = bytes((b * 7 + 3) & 0xFF for b in data[:200])      # ciphertext-looking garbage
             z.writestr(zipfile.ZipInfo(zi.filename, date_time=zi.date_time), data, zipfile.ZIP_STORED if zi.filename == "mimetype" else zipfile.ZIP_DEFLATED)
@@ -110,6 +116,15 @@ def _epub_variant(plain: bytes, variant: str) -> bytes:
                        '<enc:EncryptedData><enc:EncryptionMethod Algorithm="http://www.w3.org/2001/04/xmlenc#aes128-cbc"/><enc:CipherData><enc:CipherReference URI="OEBPS/text/ch1.xhtml"/></enc:CipherData></enc:EncryptedData></encryption>')
         elif variant == "rights-xml":
             z.writestr("META-INF/rights.xml", '<?xml version="1.0"?><adept:rights xmlns:adept="http://ns.adobe.com/adept"><licenseToken/></adept:rights>')
+        elif variant in ("rights-xml+empty-encryption-xml", "rights-xml+encrypted-key-only"):
+            # Adobe licence token next to an encryption.xml that lists no EncryptedData: still a DRM-protected book
+            z.writestr("META-INF/rights.xml", '<?xml version="1.0"?><adept:rights xmlns:adept="http://ns.adobe.com/adept"><licenseToken/></adept:rights>')
+            inner = "" if "empty" in variant else '<enc:EncryptedKey Id="EK"><enc:EncryptionMethod Algorithm="http://www.w3.org/2001/04/xmlenc#rsa-1_5"/><enc:CipherData><enc:CipherValue>AAAA</enc:CipherValue></enc:CipherData></enc:EncryptedKey>'
+            z.writestr("META-INF/encryption.xml", '<?xml version="1.0"?><encryption xmlns="urn:oasis:names:tc:opendocument:xmlns:container" xmlns:enc="http://www.w3.org/2001/04/xmlenc#">' + inner + "</encryption>")
+        elif variant == "rights-xml+encryption-xml":
+            z.writestr("META-INF/rights.xml", '<?xml version="1.0"?><adept:rights xmlns:adept="http://ns.adobe.com/adept"><licenseToken/></adept:rights>')
+            z.writestr("META-INF/encryption.xml", '<?xml version="1.0"?><encryption xmlns="urn:oasis:names:tc:opendocument:xmlns:container" xmlns:enc="http://www.w3.org/2001/04/xmlenc#">'
+                       '<enc:EncryptedData><enc:EncryptionMethod Algorithm="http://www.w3.org/2001/04/xmlenc#aes128-cbc"/><enc:CipherData><enc:CipherReference URI="OEBPS/text/ch1.xhtml"/></enc:CipherData></enc:EncryptedData></encryption>')
         elif variant == "plain-font-obfuscation-only":
             # encryption.xml without EncryptedData elements (empty) must NOT make the book 'encrypted'
             z.writestr("META-INF/encryption.xml", '<?xml version="1.0"?><encryption xmlns="urn:oasis:names:tc:opendocument:xmlns:container"/>')
@@ -270,7 +285,7 @@ def gen_cases(run):
             for variant in ("both", "info-only", "package-only"):
                 yield mk(mech="ooxml-cfb", fmt=fmt, variant=variant, seed=base + r)
         for fmt in ("odt", "odp", "ods", "odg"):
-            for variant in ("encrypted", "encrypted-other-prefix", "plain-name-contains-trigger", "plain-comment-contains-trigger"):
+            for variant in ("encrypted", "encrypted-other-prefix", "encrypted-utf16-manifest", "encrypted-utf16be-manifest", "plain-utf16-manifest", "plain-name-contains-trigger", "plain-comment-contains-trigger"):
                 yield mk(mech="odf-manifest", fmt=fmt, variant=variant, seed=base + r)
         yield mk(mech="ole-flag", fmt="doc", variant="fib-flag", seed=base + r)
         for variant in ("after-bof", "later", "before-first-eof"):
@@ -281,7 +296,7 @@ def gen_cases(run):
             yield mk(mech="zip-flag", fmt="zip", variant=variant, seed=base + r)
         for variant in ("main-folder", "one-of-several-folders", "encrypted-header"):
             yield mk(mech="7z-aes", fmt="7z", variant=variant, seed=base + r)
-        for variant in ("encryption-xml", "rights-xml", "plain-font-obfuscation-only"):
+        for variant in ("encryption-xml", "rights-xml", "rights-xml+empty-encryption-xml", "rights-xml+encrypted-key-only", "rights-xml+encryption-xml", "plain-font-obfuscation-only"):
             yield mk(mech="epub-drm", fmt="epub", variant=variant, seed=base + r)
     # PDFs: encrypted by a separate pool task (reference AES), then handed to the extraction workers
     jobs = []
